@@ -112,6 +112,61 @@ pub fn gen(seed: u64, idx: u64, _tier: Tier) -> Case {
             model.predict(op);
         }
     }
+    // growth workload (every fifth): one handle writes a V3 stream across the first FAT-sector
+    // boundary (128 sectors = 64 KB), small streams fill the MiniFAT past its first sector
+    // (128 mini sectors), the big stream is cut back inside its chain and grown again - so that
+    // faults land inside FAT-sector, MiniFAT-sector and directory-sector growth and inside
+    // free_chain_after, each followed by the retry
+    let growth = idx % 5 == 4;
+    if growth {
+        c.version = 3;
+        let a = rng.range(30_000, 45_000) as usize;
+        let mut ops = vec![
+            Op::HCreate { h: 0, path: "/g".into() },
+            Op::HWriteAll { h: 0, len: a, nonce: 90 },
+            Op::HFlush { h: 0 },
+            Op::HWriteAll { h: 0, len: 75_000 - a, nonce: 91 },
+            Op::HFlush { h: 0 },
+        ];
+        for (i, name) in ["/m1", "/m2", "/m3"].iter().enumerate() {
+            ops.push(Op::HCreate { h: 1, path: name.to_string() });
+            ops.push(Op::HWriteAll { h: 1, len: rng.range(2_900, 3_900) as usize, nonce: 92 + i as u32 });
+            ops.push(Op::HFlush { h: 1 });
+            ops.push(Op::HDrop { h: 1 });
+        }
+        ops.push(Op::HSetLen { h: 0, n: rng.range(20_000, 60_000) });
+        ops.push(Op::HFlush { h: 0 });
+        ops.push(Op::HSeek { h: 0, whence: Whence::End, off: 0, uoff: 0 });
+        ops.push(Op::HWriteAll { h: 0, len: 9_000, nonce: 96 });
+        ops.push(Op::HFlush { h: 0 });
+        ops.push(Op::HOpen { h: 2, path: "/m2".into() });
+        ops.push(Op::HSeek { h: 2, whence: Whence::End, off: 0, uoff: 0 });
+        ops.push(Op::HWriteAll { h: 2, len: 2_000, nonce: 97 });
+        ops.push(Op::HFlush { h: 2 });
+        // other streams take over released sectors, the big one is cut back once more, and yet
+        // another stream reuses what that released: nobody's verified bytes may change
+        ops.push(Op::HCreate { h: 1, path: "/r".into() });
+        ops.push(Op::HWriteAll { h: 1, len: rng.range(12_000, 20_000) as usize, nonce: 98 });
+        ops.push(Op::HFlush { h: 1 });
+        ops.push(Op::HDrop { h: 1 });
+        ops.push(Op::HDrop { h: 0 });
+        ops.push(Op::HOpen { h: 0, path: "/g".into() });
+        ops.push(Op::HSetLen { h: 0, n: rng.range(4_200, 15_000) });
+        ops.push(Op::HFlush { h: 0 });
+        ops.push(Op::HCreate { h: 1, path: "/q".into() });
+        ops.push(Op::HWriteAll { h: 1, len: rng.range(12_000, 20_000) as usize, nonce: 99 });
+        ops.push(Op::HFlush { h: 1 });
+        ops.push(Op::HDrop { h: 1 });
+        ops.push(Op::FlushFile);
+        c.ops = ops;
+        c.params.insert("torn_seed".into(), (rng.next_u64() >> 2) as i64);
+        c.params.insert("slice".into(), slice as i64);
+        c.params.insert("nslices".into(), SLICES as i64);
+        if idx % 3 == 2 {
+            c.params.insert("durable".into(), 1);
+        }
+        return c;
+    }
     let mut g = Gen::new(&mut rng, &cfg, model);
     let mut ops = pre;
     ops.extend(g.history(n));
@@ -161,6 +216,8 @@ fn execute(case: &Case, plan: &[Fault], heal_after_first_failure: bool) -> RunOu
     // failing calls that were never brought to success: after one, an unreadable image proves nothing
     let mut unrecovered = 0u64;
     let mut torn_fired = false;
+    let mut drop_fault = false;
+    let retry_set_len = case.param("retry_set_len", 1) == 1;
     let mut out = RunOut { n_events: 0, violation: None, fired: Default::default(), verified_after_fault: 0, inconclusive: 0, trace: 0 };
     crate::driver::set_clock(crate::ops::T { secs: 1_600_000_000, nanos: 0 });
     let fin = |out: &mut RunOut, disk: &SimDisk| {
@@ -230,6 +287,12 @@ fn execute(case: &Case, plan: &[Fault], heal_after_first_failure: bool) -> RunOu
         };
         if let Some(p) = target {
             if tainted.iter().any(|t| t.eq_ignore_ascii_case(p)) {
+                continue;
+            }
+        }
+        // never two handles on one stream (no property covers that)
+        if let Op::HOpen { h, path } | Op::HCreate { h, path } | Op::HCreateNew { h, path } = op {
+            if hs.iter().enumerate().any(|(i, st)| i != *h && st.as_ref().map(|st| st.path.eq_ignore_ascii_case(path)).unwrap_or(false)) {
                 continue;
             }
         }
@@ -333,14 +396,17 @@ fn execute(case: &Case, plan: &[Fault], heal_after_first_failure: bool) -> RunOu
                     if let Some(st) = hs[*h].as_ref() {
                         known.remove(&st.path);
                     }
-                    if is_err {
-                        // a resize that failed half-way may have moved the stream between the
-                        // mini stream and regular sectors: give the object up, no retry
+                    if is_err && (!retry_set_len || fired.is_empty() || tries >= 4) {
+                        // a resize that failed for good may have left the stream half-way between
+                        // the mini stream and regular sectors: give the object up
+                        unrecovered += 1;
                         if let Some(st) = hs[*h].take() {
                             tainted.insert(st.path.clone());
                             let _ = lib.exec(&Op::HDrop { h: *h });
                         }
                         break;
+                    } else if is_err {
+                        // retried below like every other failed call
                     } else if let Some(st) = hs[*h].as_mut() {
                         if let Some(c) = st.content.as_mut() {
                             c.resize(*n as usize, 0);
@@ -348,6 +414,15 @@ fn execute(case: &Case, plan: &[Fault], heal_after_first_failure: bool) -> RunOu
                     }
                 }
                 Op::HDrop { h } => {
+                    if !fired.is_empty() {
+                        // Drop ignores write-back errors (excluded from the property): whatever
+                        // that handle had buffered is lost and its stream is in an unknown state
+                        drop_fault = true;
+                        if let Some(st) = hs[*h].as_ref() {
+                            known.remove(&st.path);
+                            tainted.insert(st.path.clone());
+                        }
+                    }
                     hs[*h] = None;
                 }
                 Op::HSeek { h, whence: Whence::End, off, .. } => {
@@ -533,6 +608,47 @@ fn execute(case: &Case, plan: &[Fault], heal_after_first_failure: bool) -> RunOu
                 }
             }
             break;
+        }
+    }
+    // final audit: a stream whose content was verified after an Ok flush (or established by a
+    // whole-stream write) and that no call has touched since must still read back the same -
+    // whatever happened to OTHER objects in between (a read that fails is inconclusive)
+    // Only in runs where that proves something: every failed call was retried to success, no
+    // object was given up, no failure was swallowed by a Drop (excluded by the property). After an
+    // unrecovered failure an object may be left half-migrated, and the unchanged library then lets
+    // later calls on it overwrite sectors that were handed to other streams - "later calls may
+    // fail" is all the property says about that state, so it is not judged.
+    if out.violation.is_none() && unrecovered == 0 && tainted.is_empty() && !drop_fault {
+        let live: Vec<String> = hs.iter().flatten().map(|st| st.path.clone()).collect();
+        for (path, want) in known.iter() {
+            if tainted.iter().any(|t| t.eq_ignore_ascii_case(path)) || live.iter().any(|l| l.eq_ignore_ascii_case(path)) {
+                continue;
+            }
+            match lib.exec(&Op::ReadWhole(path.clone())) {
+                Res::Bytes(b) => {
+                    if &b != want {
+                        let first = b.iter().zip(want.iter()).position(|(x, y)| x != y);
+                        out.violation = Some((
+                            "verified-content-changed".into(),
+                            "audit".into(),
+                            format!(
+                                "at the end of the run {:?} reads {} bytes, but {} bytes were verified after an Ok flush and no call has touched that stream since (first mismatch at {:?})",
+                                path,
+                                b.len(),
+                                want.len(),
+                                first
+                            ),
+                            case.ops.len(),
+                        ));
+                        break;
+                    }
+                }
+                Res::Panic(p) => {
+                    out.violation = Some(("panic".into(), normalise_site(&p), format!("final read-back of {:?} panicked: {}", path, p), case.ops.len()));
+                    break;
+                }
+                _ => out.inconclusive += 1,
+            }
         }
     }
     lib.close();
